@@ -23,6 +23,9 @@ pub struct NodeCase {
     pub bursts: Vec<(u32, u8)>,
     pub batch: u8,
     pub backend_timeout_ms: u16,
+    /// bytes of padding carried by every request (large requests fill the product's 8 KiB write buffer)
+    #[serde(default)]
+    pub pad: u16,
 }
 
 fn plan() -> impl Strategy<Value = ConnPlan> {
@@ -34,8 +37,10 @@ fn plan() -> impl Strategy<Value = ConnPlan> {
         prop_oneof![6 => Just(None), 1 => (0u16..12).prop_map(Some)],
         prop_oneof![4 => Just(None), 3 => (0u32..400).prop_map(Some)],
         prop_oneof![6 => Just(None), 2 => (1u16..20).prop_map(Some)],
+        prop_oneof![7 => Just(None), 1 => (0u16..6).prop_map(Some)],
+        prop_oneof![3 => Just(0u32), 1 => 16u32..2048],
     )
-        .prop_map(|(refuse, latency_us, fragments, coalesce, stall_after, cut_after_reply_bytes, cut_after_requests)| ConnPlan {
+        .prop_map(|(refuse, latency_us, fragments, coalesce, stall_after, cut_after_reply_bytes, cut_after_requests, read_stall_after, pipe)| ConnPlan {
             refuse,
             latency_us,
             fragments,
@@ -43,6 +48,8 @@ fn plan() -> impl Strategy<Value = ConnPlan> {
             stall_after,
             cut_after_reply_bytes,
             cut_after_requests,
+            read_stall_after,
+            pipe,
         })
 }
 
@@ -54,11 +61,13 @@ pub fn node_strategy() -> impl Strategy<Value = NodeCase> {
         0u8..3,
         prop_oneof![Just(50u16), Just(500u16), Just(3000u16)],
         0u8..2,
+        prop_oneof![3 => Just(0u16), 1 => 1u16..200, 2 => 1000u16..4000],
     )
-        .prop_map(|(conns, mut rest, bursts, batch, backend_timeout_ms, shapes)| {
+        .prop_map(|(conns, mut rest, bursts, batch, backend_timeout_ms, shapes, pad)| {
             // the tail plan must eventually let traffic through, or nothing is learned
             rest.refuse = false;
-            NodeCase { script: Script { conns, rest, shapes }, bursts, batch, backend_timeout_ms }
+            rest.read_stall_after = None;
+            NodeCase { script: Script { conns, rest, shapes }, bursts, batch, backend_timeout_ms, pad }
         })
 }
 
@@ -90,8 +99,13 @@ pub fn proxy_config(batch: u8, backend_conn_num: usize, backend_timeout: Duratio
     })
 }
 
-fn request(id: usize) -> (CmdCtx, undermoon::proxy::command::CmdReplyReceiver) {
-    let resp: RespVec = Resp::Arr(Array::Arr(vec![Resp::Bulk(BulkStr::Str(b"ECHO".to_vec())), Resp::Bulk(BulkStr::Str(format!("id{}", id).into_bytes()))]));
+fn request(id: usize, pad: u16) -> (CmdCtx, undermoon::proxy::command::CmdReplyReceiver) {
+    let mut parts = vec![Resp::Bulk(BulkStr::Str(b"ECHO".to_vec()))];
+    if pad > 0 {
+        parts.push(Resp::Bulk(BulkStr::Str(vec![b'p'; pad as usize])));
+    }
+    parts.push(Resp::Bulk(BulkStr::Str(format!("id{}", id).into_bytes())));
+    let resp: RespVec = Resp::Arr(Array::Arr(parts));
     let cmd = Command::new(Box::new(RespPacket::from_resp_vec(resp)));
     let (sender, receiver) = new_command_pair(&cmd);
     (CmdCtx::new(cmd, sender, 1, false), receiver)
@@ -119,7 +133,7 @@ async fn run_node(case: &NodeCase, obs: &mut Obs) -> Result<(), Fail> {
     for (pause, n) in &case.bursts {
         tokio::time::sleep(Duration::from_micros(*pause as u64)).await;
         for _ in 0..*n {
-            let (ctx, rx) = request(id);
+            let (ctx, rx) = request(id, case.pad);
             match node.send(ctx) {
                 Ok(()) => {}
                 Err(e) => {
@@ -222,6 +236,15 @@ async fn run_node(case: &NodeCase, obs: &mut Obs) -> Result<(), Fail> {
     if case.script.conns.iter().any(|p| p.stall_after.is_some()) {
         obs.class("stall");
     }
+    if be.read_stalls.load(std::sync::atomic::Ordering::Relaxed) > 0 {
+        obs.class("backend-stopped-reading");
+        // more request bytes were outstanding than the pipe plus the product's 8 KiB write buffer hold
+        let per_req = 30 + case.pad as usize;
+        if per_req * total > 8192 + 4096 {
+            obs.nontrivial = true;
+            obs.class("backend-stopped-reading:write-half-under-back-pressure");
+        }
+    }
     if err_replies > 0 {
         obs.class("some-requests-answered-with-error");
     }
@@ -252,6 +275,10 @@ pub struct SessionCase {
     pub write_fragments: Vec<u16>,
     pub batch: u8,
     pub backend_conn_num: u8,
+    /// the client pipelines everything, waits, and only then starts reading; socket buffers are small
+    /// and every backend reply is 9 KiB, so the proxy's writes towards the client hit back-pressure
+    #[serde(default)]
+    pub lazy_reader: bool,
 }
 
 pub fn session_strategy() -> impl Strategy<Value = SessionCase> {
@@ -263,21 +290,26 @@ pub fn session_strategy() -> impl Strategy<Value = SessionCase> {
         0u8..3,
         1u8..4,
         0u8..2,
+        prop::bool::weighted(0.25),
     )
-        .prop_map(|(mut conns, mut rest, kinds, write_fragments, batch, backend_conn_num, shapes)| {
+        .prop_map(|(mut conns, mut rest, kinds, write_fragments, batch, backend_conn_num, shapes, lazy_reader)| {
             rest.refuse = false;
             // real time: keep latencies short
             for p in conns.iter_mut().chain(std::iter::once(&mut rest)) {
                 p.latency_us = p.latency_us.min(3000);
                 p.stall_after = None;
+                p.read_stall_after = None;
+                p.pipe = 0;
             }
-            SessionCase { script: Script { conns, rest, shapes }, kinds, write_fragments, batch, backend_conn_num }
+            let shapes = if lazy_reader { 2 } else { shapes };
+            SessionCase { script: Script { conns, rest, shapes }, kinds, write_fragments, batch, backend_conn_num, lazy_reader }
         })
 }
 
 pub fn check_session(case: &SessionCase, obs: &mut Obs) -> Result<(), Fail> {
     use crate::engines::codec::{ref_parse, RVal, Verdict};
     use crate::engines::world::{cmd, cmd_to_resp, Net};
+    let shapes = case.script.shapes;
     use tokio::io::{AsyncReadExt, AsyncWriteExt};
     use undermoon::common::track::TrackedFutureRegistry;
     use undermoon::proxy::executor::SharedForwardHandler;
@@ -294,7 +326,13 @@ pub fn check_session(case: &SessionCase, obs: &mut Obs) -> Result<(), Fail> {
         // the client factory is never used by data commands
         let handler = SharedForwardHandler::new(config.clone(), Net::new(), slowlog.clone(), meta_map, be.clone(), Arc::new(TrackedFutureRegistry::default()), stopped);
         let session = Arc::new(Session::new(1, handler, slowlog, config.clone()));
-        let listener = tokio::net::TcpListener::bind("127.0.0.1:0").await.map_err(|e| Fail::new("harness:bind", e.to_string()))?;
+        let lsock = tokio::net::TcpSocket::new_v4().map_err(|e| Fail::new("harness:bind", e.to_string()))?;
+        if case.lazy_reader {
+            // inherited by the accepted socket: the proxy's sending side fills up quickly
+            let _ = lsock.set_send_buffer_size(4096);
+        }
+        lsock.bind("127.0.0.1:0".parse().expect("addr")).map_err(|e| Fail::new("harness:bind", e.to_string()))?;
+        let listener = lsock.listen(8).map_err(|e| Fail::new("harness:bind", e.to_string()))?;
         let addr = listener.local_addr().map_err(|e| Fail::new("harness:bind", e.to_string()))?;
         let s2 = session.clone();
         let server = tokio::spawn(async move {
@@ -305,7 +343,11 @@ pub fn check_session(case: &SessionCase, obs: &mut Obs) -> Result<(), Fail> {
                 }
             }
         });
-        let mut sock = tokio::net::TcpStream::connect(addr).await.map_err(|e| Fail::new("harness:connect", e.to_string()))?;
+        let csock = tokio::net::TcpSocket::new_v4().map_err(|e| Fail::new("harness:connect", e.to_string()))?;
+        if case.lazy_reader {
+            let _ = csock.set_recv_buffer_size(4096);
+        }
+        let mut sock = csock.connect(addr).await.map_err(|e| Fail::new("harness:connect", e.to_string()))?;
         // metadata: the scripted backend owns every slot
         let mut out = vec![];
         let set = cmd(&["UMCTL", "SETCLUSTER", "v2", "1", "NOFLAG", "c", "127.0.0.1:7001", "1", "0-16383"]);
@@ -331,6 +373,11 @@ pub fn check_session(case: &SessionCase, obs: &mut Obs) -> Result<(), Fail> {
             if fi % 3 == 0 {
                 tokio::task::yield_now().await;
             }
+        }
+        if case.lazy_reader {
+            // let the proxy run into the full socket before the first byte is read
+            tokio::time::sleep(Duration::from_millis(150)).await;
+            obs.class("lazy-reader");
         }
         // read the replies
         let mut buf: Vec<u8> = vec![];
@@ -366,7 +413,7 @@ pub fn check_session(case: &SessionCase, obs: &mut Obs) -> Result<(), Fail> {
                 (2, RVal::Bulk(Some(s))) => s == want,
                 (0, v) => match marker_of(v) {
                     // a backend reply: it must be the one written for this request, unaltered
-                    Some(m) => &m == want && *v == ScriptedBackend::shaped_reply_for(case.script.shapes, &[want[3..].to_vec()]),
+                    Some(m) => &m == want && *v == ScriptedBackend::shaped_reply_for(shapes, &[want[3..].to_vec()]),
                     // a failed exchange is answered with an error
                     None => matches!(v, RVal::Error(_)),
                 },
@@ -435,7 +482,7 @@ pub fn enumerated_cases() -> Vec<NodeCase> {
                         for second in seconds {
                             let mut conns = vec![first.clone()];
                             conns.extend(second);
-                            v.push(NodeCase { script: Script { conns, rest: clean.clone(), shapes: 0 }, bursts: bursts.clone(), batch, backend_timeout_ms: 500 });
+                            v.push(NodeCase { script: Script { conns, rest: clean.clone(), shapes: 0 }, bursts: bursts.clone(), batch, backend_timeout_ms: 500, pad: 0 });
                         }
                     }
                 }
